@@ -311,7 +311,8 @@ func (op LinearQuantizer) Op_instruction_internal_state(arch *Arch, flavor strin
 }
 
 func (Op LinearQuantizer) Op_instruction_verilog_reset(arch *Arch, flavor string) string {
-	return ""
+	// Without a reset value the state register is undefined and the instruction never starts
+	return "\t\t\t" + Op.lqName + "_" + arch.Tag + "_state <= #1 " + Op.lqName + "_" + arch.Tag + "_put;\n"
 }
 
 func (Op LinearQuantizer) Op_instruction_verilog_default_state(arch *Arch, flavor string) string {
